@@ -1,7 +1,7 @@
 #!/usr/bin/env python3
 """C13 signals: proofs (Properties_C13.v) + correspondence of Model/Signal.v with
 src/unix/signal.c (+ the close deferral of core.c) of the current tree: generated scripts
-of init/start/start_oneshot/stop/close/raise/run over 1-4 handles on 1-2 loops, real
+of init/start/start_oneshot/stop/close/raise/run over 1-5 handles on 1-3 loops (one pthread each), real
 signals, real sigaction() snapshots after every operation."""
 import os, sys
 from collections import deque
@@ -17,21 +17,34 @@ K_ONECB = "oneshot_restart_inside_callback_stopped"
 K_REARM = "oneshot_rearm_same_signal_in_callback_stopped"
 FIXED = os.environ.get("VERIF_C13_FIXED", "1") == "1"   # compare against the model variant with the flag fix
 STALEFIX = os.environ.get("VERIF_C13_STALEFIX", "1") == "1"   # model variant fs: one-shot stop only after the callback
-RESTARTFIX = os.environ.get("VERIF_C13_RESTARTFIX", "0") == "1"   # model variant fr: stop after the callback only if still watching that signal
+RESTARTFIX = os.environ.get("VERIF_C13_RESTARTFIX", "1") == "1"   # model variant fr: stop after the callback only if still watching that signal
 
 
 # --------------------------------------------------------------------------
 # generator
 # --------------------------------------------------------------------------
+NLOOPS = 3                      # loop threads of the harness; thread index NLOOPS = "the thread running the script"
+
+
 def gen_case(rng):
-    two = rng.random() < 0.2
-    nh = rng.choice([1, 2, 2, 3, 3, 4])
+    nl = rng.choice([1, 1, 1, 1, 2, 2, 2, 3, 3])
+    nh = rng.choice([1, 2, 2, 3, 3, 4]) if nl == 1 else rng.choice([2, 3, 3, 4, 4, 5])
     nsig = rng.choice([1, 1, 2, 2, 3, 4])
     sigs = rng.sample(SIGS, nsig)
-    loops = [0, 1] if two else [0]
+    loops = list(range(nl))
 
     def sig():
         return rng.choice(sigs)
+
+    def kill():
+        # which thread receives the signal must not matter: the current one, a parked loop thread
+        # (raise() executed there), or pthread_kill() to a parked loop thread
+        r = rng.random()
+        if r < 0.4:
+            return "K%d" % sig()
+        if r < 0.7:
+            return "K%d,%d" % (sig(), rng.choice(loops + [NLOOPS]))
+        return "K%d,%d,1" % (sig(), rng.choice(loops + [NLOOPS]))
 
     def one(top):
         r = rng.random()
@@ -47,9 +60,13 @@ def gen_case(rng):
         if r < 0.53:
             return rng.choice(["S%d,0", "O%d,9", "S%d,65", "O%d,0"]) % h
         if r < 0.80 or not top:
-            return "K%d" % sig()
+            return kill()
         return "R%d" % rng.choice(loops)
-    ops = ["I%d" % rng.choice(loops) for _ in range(nh)]
+    # every loop gets a handle first, the rest anywhere
+    ops = ["I%d" % (i if i < nl else rng.choice(loops)) for i in range(nh)]
+    if nl > 1 and rng.random() < 0.7:
+        s0 = sig()                                    # the same signal watched from several loops
+        ops += [rng.choice(["S%d,%d", "S%d,%d", "O%d,%d"]) % (h, s0) for h in range(nh)]
     for _ in range(rng.randint(3, 30)):
         ops.append(one(True))
     behs = []
@@ -57,8 +74,10 @@ def gen_case(rng):
         behs.append(" ".join(one(False) for _ in range(rng.choice([0, 1, 1, 2, 3]))))
     for l in loops:
         ops += ["R%d" % l] * 3
-    if two:
-        ops += ["R0", "R1", "R0", "R1"]
+    if nl > 1:
+        ops += ["R%d" % l for l in loops] * 2
+        for l in loops:
+            ops += ["R%d" % l] * 2
     return "4096 ; %s ; %s" % (" ".join(ops), " | ".join(behs))
 
 
@@ -353,6 +372,9 @@ class Mon:
                 if t[0] == ")":
                     break
                 if t[0] == "c":
+                    if t.endswith("W"):
+                        self.bad(None, "signal callback of handle %s ran on a thread that is not its loop's thread" % t[1:-1])
+                        t = t[:-1]
                     h, s = [int(x) for x in t[1:].split(",")]
                     self.run["cbs"] += 1
                     sn = self.nxt()
@@ -371,6 +393,9 @@ class Mon:
                     self.cb_stack.pop()
                     self.on_cb_end(h, ses)
                 elif t[0] == "z":
+                    if t.endswith("W"):
+                        self.bad(None, "close callback of handle %s ran on a thread that is not its loop's thread" % t[1:-1])
+                        t = t[:-1]
                     self.on_close_cb(int(t[1:]))
                 else:
                     raise ValueError("unexpected token in run: " + t)
@@ -468,7 +493,8 @@ def main():
         chk.sample({"case": cases[min(len(cases) - 1, 40)], "impl": a[min(len(cases) - 1, 40)]})
     chk.finish(
         level="proof",
-        rule="random API scripts (1-4 handles, 1-2 loops run from one thread, 1-4 of SIGHUP/SIGUSR1/SIGUSR2/SIGWINCH, "
+        rule="random API scripts (1-5 handles, 1-3 loops each created and run on its own pthread and serialised by the "
+             "script, signals delivered to a scripted thread by raise()/pthread_kill(), 1-4 of SIGHUP/SIGUSR1/SIGUSR2/SIGWINCH, "
              "scripted callbacks), bursts of more than 32 messages, every 3-operation program over 2 handles x 2 signals "
              "with a fixed tail; real raise(), sigaction() and uv_is_active() after every operation; a case is "
              "non-trivial when at least one signal callback ran and its (case, trace) pair is distinct",
